@@ -27,7 +27,7 @@ VACUOUS = 1e-2
 
 
 class ObjRec:
-    __slots__ = ("oid", "op", "spec", "settings", "seed", "D", "psd", "faulted", "cb", "cls", "square", "created_step", "dense0", "deps", "cond")
+    __slots__ = ("oid", "op", "spec", "settings", "seed", "D", "psd", "faulted", "cb", "cls", "square", "created_step", "dense0", "deps", "cond", "jitter_taint")
 
     def __init__(self, oid):
         self.oid = oid
@@ -35,6 +35,7 @@ class ObjRec:
         self.cb = None
         self.dense0 = None
         self.cond = None
+        self.jitter_taint = 0.0
 
 
 def _is_psd(D):
@@ -622,9 +623,19 @@ class World:
             if fired:
                 self.stat(f"fault_{fault['kind']}_fired")
                 rec.faulted = True
+                taint = 0.0
+                if fault["kind"] == "chol_info":
+                    # an injected Cholesky failure makes psd_safe_cholesky add (and the operator cache) jitter: "as if the query
+                    # completed" legitimately includes a factor of A + j I with j up to jitter * 10^(failed attempts - 1)
+                    jit = world._get_setting("cholesky_jitter_double" if self.dtype == "float64" else "cholesky_jitter_float")
+                    mt = world._get_setting("cholesky_max_tries")
+                    k_ = max(1, min(int(fault.get("attempts", 1)), int(mt)))
+                    taint = float(jit) * 10 ** (k_ - 1)
+                    rec.jitter_taint = max(rec.jitter_taint, taint)
                 for o2 in self.objs.values():  # parents / children share sub-operators
                     if o2 is not rec and _related(o2, rec):
                         o2.faulted = True
+                        o2.jitter_taint = max(o2.jitter_taint, taint)
         self.update_provenance(before, (i, "query", qsig, qname, hres.err if hres is not None else ("exc" if hexc is not None else None),
                                         fres.err if fres is not None else ("exc" if fexc is not None else None)))
         self.stat("queries")
@@ -721,6 +732,14 @@ class World:
         # copy itself is inexact: truncated / jittered Lanczos, unconverged CG): errors of random approximations vary by
         # orders of magnitude between draws, so anything below the vacuity threshold or within 30x is accepted
         lim = max(floor, 30 * fres.err, VACUOUS if fres.err > floor else 0.0)
+        if rec.jitter_taint:
+            Dd = rec.D.double()
+            n_ = Dd.shape[-1]
+            if op["q"] in INVERSE_QUERIES:
+                tau = rec.jitter_taint * self._cond(rec) / float(torch.linalg.matrix_norm(Dd, ord=2).max().clamp_min(1e-300))
+            else:
+                tau = rec.jitter_taint * math.sqrt(n_) / float(torch.linalg.matrix_norm(Dd).min().clamp_min(1e-300))
+            lim = max(lim, 30 * tau)
         if not direct and op["q"] in INVERSE_QUERIES:
             # inverse functionals in the iterative regime: Lanczos noise (1e-6) is amplified by the squared condition number of
             # the (possibly concatenated / updated) matrix; cache-confusion defects still give O(1) errors
